@@ -148,6 +148,8 @@ pub enum EpFn {
     Select0(SelFn),
     Len(Box<dyn Fn() -> usize>),
     Ones(Box<dyn Fn() -> usize>),
+    /// (count_ones, count_zeros, is_empty): count_ones is judged exactly like `Ones`, then the two derived observers
+    Counts(Box<dyn Fn() -> (usize, usize, bool)>),
     Get(Box<dyn Fn(usize) -> Option<bool>>),
     /// judges the whole input itself; `None` = all clauses held
     Custom(Box<dyn Fn(&Input) -> Option<Outcome>>),
@@ -289,6 +291,19 @@ pub fn check_ep(ep: &Ep, inp: &Input) -> Outcome {
             let o = f();
             if o != inp.ones() {
                 Some(fail("count_ones", if o > inp.ones() { "too_many" } else { "too_few" }, format!("count_ones() = {o}, sequence has {} ones (len {len})", inp.ones())))
+            } else {
+                None
+            }
+        }
+        EpFn::Counts(f) => {
+            q(3);
+            let (o, z, e) = f();
+            if o != inp.ones() {
+                Some(fail("count_ones", if o > inp.ones() { "too_many" } else { "too_few" }, format!("count_ones() = {o}, sequence has {} ones (len {len})", inp.ones())))
+            } else if z != inp.zeros() {
+                Some(fail("count_ones", "count_zeros_wrong", format!("count_zeros() = {z}, sequence has {} zeros (len {len}, {} ones)", inp.zeros(), inp.ones())))
+            } else if e != (len == 0) {
+                Some(fail("len", "is_empty_wrong", format!("is_empty() = {e}, sequence has {len} bits")))
             } else {
                 None
             }
